@@ -388,13 +388,15 @@ impl VarFile {
                 let bimap_start = HTX_HEADER_SZ + buckets_size * 8;
                 self.seek_from_start(NodePieceOffset::new(bimap_start + bitmap_idx))?;
                 let mut idx = idx;
+                let idx_start = idx;
                 //
                 let mut byte_8 = 0;
-                while byte_8 == 0 && idx < buckets_size - 8 {
+                while byte_8 == 0 && idx + 8 < buckets_size {
                     byte_8 = self.read_u64_le()?;
                     idx += 8 * 8;
                 }
-                if idx >= 8 * 8 {
+                // step back only over what the loop above has read.
+                if idx > idx_start {
                     self.seek_back_size(NodePieceSize::new(std::mem::size_of_val(&byte_8) as u32))?;
                     idx -= 8 * 8;
                 }
